@@ -139,7 +139,7 @@ type msgSpec struct {
 }
 
 type hop struct {
-	Op   string `json:"op"` // recv | send | ret
+	Op   string `json:"op"` // recv | send | ret | idle (the handler does nothing for idleGap)
 	ID   int    `json:"id,omitempty"`
 	Size int    `json:"size,omitempty"`
 }
@@ -247,6 +247,51 @@ func genScript(r *prng.R) script {
 	s.ClientDelay = genDelays(r, len(s.Sends)+1+s.PostClose)
 	s.RecvDelay = genDelays(r, sends+6)
 	s.HandlerDelay = genDelays(r, len(s.Handler))
+	return s
+}
+
+// genIdleScript: a handler that stays quiet for longer than the transport's write
+// deadline before some of its sends (1-32 KiB and small ones), then returns one of the
+// result kinds; the client sends a few small requests and closes its sending side.
+func genIdleScript(r *prng.R) script {
+	var s script
+	nSend := r.Range(0, 3)
+	for i := 0; i < nSend; i++ {
+		s.Sends = append(s.Sends, msgSpec{ID: 1000 + i, Size: r.Intn(300)})
+	}
+	s.CloseSend = true
+	sends := 0
+	send := func(size int) {
+		s.Handler = append(s.Handler, hop{Op: "send", ID: 5000 + sends, Size: size})
+		sends++
+	}
+	for i := 0; i < nSend && r.Bool(); i++ {
+		s.Handler = append(s.Handler, hop{Op: "recv"})
+	}
+	if r.Bool() {
+		send(r.Intn(200))
+	}
+	for g, ng := 0, r.Range(1, 2); g < ng; g++ {
+		s.Handler = append(s.Handler, hop{Op: "idle"})
+		switch r.Intn(3) {
+		case 0:
+			send(r.Intn(900)) // fits the websocket write buffer
+		case 1:
+			send(r.Range(1100, 4<<10))
+		default:
+			send(r.Range(4<<10, 32<<10))
+		}
+		if r.Bool() {
+			send(r.Range(1100, 8<<10))
+		}
+	}
+	s.Handler = append(s.Handler, hop{Op: "ret"})
+	k := prng.Pick(r, errKinds)
+	s.Kind = k.Name
+	s.ErrMsg = prng.Pick(r, errMsgs)
+	s.ClientDelay = genDelays(r, len(s.Sends)+1)
+	s.RecvDelay = genDelays(r, sends+6)
+	s.HandlerDelay = make([]int, len(s.Handler))
 	return s
 }
 
